@@ -53,6 +53,30 @@ class CallTrue(Cut):
         return _bool_targets(labels3, self.truth)
 
 
+class ValTrue(Cut):
+    """Switch on a bool whose provenance satisfies `test(val)`: remove the edge taken when it is `truth`."""
+
+    def __init__(self, name, test, truth=True):
+        self.name = name
+        self.test = test
+        self.truth = truth
+
+    def remove(self, I, frame, pname, pargs, positive, labels3, opv):
+        if not self.test(opv):
+            return None
+        return _bool_targets(labels3, self.truth)
+
+
+def sends_to(A, recipients):
+    """BankMsg::Send aggregates whose recipient origins are within `recipients`"""
+    out = []
+    for e in A.aggs(r"BankMsg::Send$"):
+        to = all_origins(A.d(field_val(e, "to_address")))
+        if to and to <= set(recipients):
+            out.append(e)
+    return out
+
+
 def no_effects(chk, W, rule, contract, vpath, cuts, label, which="execute", opaque=(), effects=None, extra=()):
     """Obligation: with the accept edges of `cuts` removed, no storage write / outflow is reachable
     from the entry variant.  Also requires that each cut matched at least one switch (anchor)."""
@@ -150,6 +174,30 @@ def status_reads(A):
             if m:
                 flags.add(m.group(1))
     return flags
+
+
+def has_eq_between(v, pat_a, pat_b, depth=0):
+    """does the value's computation contain `a == b` between values with exactly these origins?"""
+    if depth > 8 or not hasattr(v, "atoms"):
+        return False
+    for a in v.atoms:
+        if isinstance(a[0], tuple) and a[0][0] == "pred":
+            if a[0][1] in ("eq", "ne") and len(a[0]) > 3:
+                l, r = exact_origins(a[0][2]), exact_origins(a[0][3])
+                if (l == pat_a and r == pat_b) or (l == pat_b and r == pat_a):
+                    return True
+            for x in a[0][2:]:
+                if has_eq_between(x, pat_a, pat_b, depth + 1):
+                    return True
+    for k, f in v.fields.items():
+        if has_eq_between(f, pat_a, pat_b, depth + 1):
+            return True
+    return False
+
+
+def selects_by(A, pat_a, pat_b):
+    """some position()/find()/filter()/loop decision of the analysis compares exactly these two origins for equality"""
+    return any(has_eq_between(x, pat_a, pat_b) for e in A.events if e.kind in ("switch", "invoke") for x in e.vals)
 
 
 def opmap(v, cond=None):
